@@ -10,9 +10,8 @@ export CARGO_TARGET_DIR=${SEED_TARGET:-/tmp/seedwt_target}
 export CARGO_NET_OFFLINE=true
 OUT=/verif/seeded/$ID
 mkdir -p $OUT
-cp $SRC/patch.diff $OUT/patch.diff
-[ -f $SRC/demo_test.rs ] && cp $SRC/demo_test.rs $OUT/demo_test.rs
-[ -f $SRC/notes.md ] && cp $SRC/notes.md $OUT/notes.md
+[ "$SRC/patch.diff" -ef "$OUT/patch.diff" ] || cp $SRC/patch.diff $OUT/patch.diff
+for f in $SRC/*; do b=$(basename $f); case $b in patch.diff|verify.json|meta.json|check_*.log|replay_*.json) ;; *) [ "$f" -ef "$OUT/$b" ] || cp $f $OUT/$b;; esac; done
 if [ ! -d $WT ]; then git -C /repo worktree add --detach $WT HEAD >/dev/null 2>&1 || exit 3; fi
 cd $WT && git checkout -q --detach $(git -C /repo rev-parse HEAD) && git checkout -q -- . && git clean -fdq
 FEAT=""; case $ID in C14-*) FEAT="--features verif_hooks";; esac
@@ -24,11 +23,18 @@ if git apply --check $OUT/patch.diff 2>/dev/null; then
   failed=$(grep -E "^test .* FAILED$" /tmp/seed_$ID.suite.log | grep -v test_sample_csv_file_validity | wc -l)
   passed=$(grep -E "^test result:" /tmp/seed_$ID.suite.log | sed -E 's/.* ([0-9]+) passed.*/\1/' | paste -sd+ | bc)
   if grep -q "error\[E\|could not compile" /tmp/seed_$ID.suite.log; then suite="does-not-compile"; elif [ "$failed" = 0 ]; then suite="pass($passed passed)"; else suite="FAILS($failed)"; fi
-  cp $OUT/demo_test.rs tests/demo_test.rs
-  if cargo test --offline $FEAT --test demo_test > /tmp/seed_$ID.with.log 2>&1; then demo_with=pass; else demo_with=fail; fi
-  git apply -R $OUT/patch.diff
-  if cargo test --offline $FEAT --test demo_test > /tmp/seed_$ID.without.log 2>&1; then demo_without=pass; else demo_without=fail; fi
-  rm -f tests/demo_test.rs
+  if [ -f $OUT/demo_test.rs ]; then
+    cp $OUT/demo_test.rs tests/demo_test.rs
+    if cargo test --offline $FEAT --test demo_test > /tmp/seed_$ID.with.log 2>&1; then demo_with=pass; else demo_with=fail; fi
+    git apply -R $OUT/patch.diff
+    if cargo test --offline $FEAT --test demo_test > /tmp/seed_$ID.without.log 2>&1; then demo_without=pass; else demo_without=fail; fi
+    rm -f tests/demo_test.rs
+  else
+    # demo.sh: run from the repository root, exits non-zero on violation
+    if bash $OUT/demo.sh > /tmp/seed_$ID.with.log 2>&1; then demo_with=pass; else demo_with=fail; fi
+    git apply -R $OUT/patch.diff
+    if bash $OUT/demo.sh > /tmp/seed_$ID.without.log 2>&1; then demo_without=pass; else demo_without=fail; fi
+  fi
 fi
 git checkout -q -- . ; git clean -fdq
 cat > $OUT/verify.json <<J
